@@ -67,7 +67,13 @@ def main(tier: str, seed: int, opts) -> int:
             labels.append(("master:" + os.path.basename(path), fi))
             fi += 1
     log(f"[C02] VERIF_SEED={seed} tier={tier} jobs={len(jobs)}")
-    with ZygotePool(workers=default_workers(), preload="worlds.decworld") as pool:
+    # a quarter of the simulated processes have a locale encoding that is not UTF-8; jobs are pinned to a configuration by
+    # their index, so which process configuration a run meets is part of the seeded plan
+    z = os.environ.get("VERIF_ZYGOTE_HASHSEED", "0")
+    configs = [z, z, z, f"{z}@clocale"]
+    for i, j in enumerate(jobs):
+        j["hashseed"] = configs[i % 4]
+    with ZygotePool(workers=default_workers(), hashseeds=configs, preload="worlds.decworld") as pool:
         n_reg = run_regressions(rep, pool, PROP)
         results = [unwrap(r, "C02 run") for r in pool.map(jobs, progress="C02")]
         fs: dict = {}
@@ -140,6 +146,8 @@ def main(tier: str, seed: int, opts) -> int:
         "simulated_fs_counters": fs,
         "fault_kinds_fired": {**faults, "short_reads": fs.get("short_reads", 0)},
         "regression_replays_run": n_reg,
+        "process_configurations": {"utf8_locale_runs": sum(1 for j in jobs if "@" not in str(j.get("hashseed"))),
+                                   "non_utf8_locale_runs": sum(1 for j in jobs if "@clocale" in str(j.get("hashseed")))},
         "log_digest": digest.hexdigest(),
         "components": {"real": ["decaylanguage.dec.dec (constructor, from_string, parse, all queries)", "decfile.lark", "lark", "particle",
                                 "CPython io.TextIOWrapper/BufferedReader (decoding, BOM codec, universal newlines)"],
